@@ -453,6 +453,19 @@ where
                 );
                 if enqueued {
                     self.piece_refs.push(piece);
+                } else {
+                    // The entry is dropped (it does not fit the flush buffer or exceeds the max entry size). An older
+                    // version of the key that is already on disk must not be served in its place: invalidate it the
+                    // same way a delete does.
+                    let hash = piece.hash();
+                    let stats = self.indexer.insert_tombstone(hash, sequence).map(|addr| InvalidStats {
+                        block: addr.block,
+                        size: bits::align_up(PAGE, addr.len as usize),
+                    });
+                    self.tombstone_infos.push(TombstoneInfo {
+                        tombstone: Tombstone { hash, sequence },
+                        stats,
+                    });
                 }
                 report(enqueued);
                 self.submit_queue_size.fetch_sub(estimated_size, Ordering::Relaxed);
